@@ -247,6 +247,17 @@ def _argstr_alternation():
                 continue
             arg = G.Argument(s, (pools[v][(i * 11) % len(pools[v])],))
             n += 1
+            # immediately before: a rebuild that FAILS after it has met one of this argument's predicate symbols at another arity
+            for p_ in list(s.predicates)[:1]:
+                if p_.is_system:
+                    continue
+                other = G.Predicate((p_.index, p_.subscript, p_.arity % 3 + 1))
+                cs = [G.Constant(j % 4, 0) for j in range(3)]
+                bad = pw(G.Predicated(other, tuple(cs[:other.arity]))) + ':' + pw(G.Predicated(p_, tuple(cs[:p_.arity])))
+                try:
+                    G.Argument(bad)
+                except Exception:
+                    pass
             try:
                 ok = G.Argument(arg.argstr()) == arg
             except Exception as e:
